@@ -336,7 +336,7 @@ pub fn fault_tier(ctx: &mut Ctx, base: &PortableRegistry, label: &str, events: &
             // it is looked up only when the holder is mentioned from another definition
             Site::Param { holder, .. } => (*holder, resolved_from_other.contains(holder)),
         };
-        let fault = json!({"kind": "missing-id", "site": format!("{site:?}"), "id": fresh});
+        let fault = json!({"kind": "missing-id", "site": format!("{site:?}"), "id": fresh, "judged": judged});
         let g = generate(&r, &s).outcome;
         if judged {
             check_expected(ctx, "missing-id", &g, |e| matches!(e, TypegenError::TypeNotFound(id) if *id == fresh), "generate_types_mod", "TypeNotFound(fresh id)", &r, fault.clone(), label);
@@ -512,6 +512,7 @@ pub fn run(ctx: &mut Ctx) {
         let mut cfg = GenCfg::default();
         cfg.allow_duration = true;
         cfg.nested_phantom = case % 5 == 0;
+        cfg.compact_unit = true;
         if case % 13 == 0 {
             cfg.max_depth = 24;
             cfg.max_defs = 3;
@@ -565,7 +566,10 @@ pub fn replay(ctx: &mut Ctx, v: &serde_json::Value) {
                 "no-bits-path" => "error:DecodedBitsPathNone",
                 _ => "error:TypeNotFound",
             };
-            if !k.starts_with(expected) {
+            let judged = v["fault"]["judged"].as_bool().unwrap_or(kind != "missing-id" || v["fault"].get("judged").is_none() && false);
+            if let GenOutcome::Panic(p) = &g {
+                ctx.violation(format!("C10:fault:{kind}:panic:{}", p.signature()), format!("panic under fault: {}", p.msg), v.clone());
+            } else if judged && !k.starts_with(expected) {
                 ctx.violation(format!("C10:fault:{kind}:generate_types_mod:{k}"), format!("expected {expected}, observed {k}"), v.clone());
             }
         }
